@@ -13,12 +13,14 @@ TEXT = {
             'acknowledgement (partial: the stall after a negative settings delta is proved to exist and is a known finding); '
             'correspondence of the whole connection model with the real library on generated programs with the application '
             'acknowledging every byte.', 'DESIGN.md section 0 and section 7 C05'),
-    'C29': ('Lean 4 theorems: for every state with a legal peer frame-size limit and all argument values, each public call except '
-            'send_headers, push_stream, initiate_connection and initiate_upgrade_connection returns or raises an h2 exception / '
-            'ValueError having left the output buffer and the history of sent frames unchanged (C29_step_partial), and calls on a '
-            'stream id that is not in the table raise exactly NoSuchStreamError above the high-water mark and StreamClosedError '
-            'below it (C29_lookup_*). Partial: the four calls named above are decided only by the correspondence check and the '
-            'oracle on real traces.', 'DESIGN.md section 0 and section 7 C29'),
+    'C29': ('Lean 4 theorems: in every state reachable from a fresh connection by receive_data and the calls named next (an '
+            'invariant proved preserved by all of them), each public call except push_stream, initiate_connection and '
+            'initiate_upgrade_connection returns or raises an h2 exception / ValueError having left the output buffer and the '
+            'history of sent frames unchanged (C29_step_partial, C29_send_headers for header tuples that are two byte strings or '
+            'two text strings, C29_every_history), and calls on a stream id that is not in the table raise exactly '
+            'NoSuchStreamError above the high-water mark and StreamClosedError below it (C29_lookup_*). Partial: the three '
+            'calls named above are decided only by the correspondence check and the oracle on real traces.',
+            'DESIGN.md section 0 and section 7 C29'),
     'C13': ('Lean 4 theorems with HPACK as an abstract recorded context: H2Stream.send_headers and push_stream_in_band, for every '
             'stream state, header list and configuration, either raise with the context untouched or make exactly one encode '
             'call (of the normalised list) whose output is exactly what the returned HEADERS/PUSH_PROMISE/CONTINUATION frames '
